@@ -1320,8 +1320,14 @@ class AstEval:
         exit_attr = f"__{async_attr}exit__"
         item = arg.items[item_idx]
         manager = await self.aeval(item.context_expr)
-        enter_func = getattr(type(manager), enter_attr)
-        exit_func = getattr(type(manager), exit_attr)
+        try:
+            enter_func = getattr(type(manager), enter_attr)
+            exit_func = getattr(type(manager), exit_attr)
+        except AttributeError:
+            kind = "asynchronous context manager" if async_attr else "context manager"
+            raise TypeError(  # pylint: disable=raise-missing-from
+                f"'{type(manager).__name__}' object does not support the {kind} protocol"
+            )
         value = await self.call_func(enter_func, enter_attr, manager)
         try:
             if item.optional_vars:
